@@ -988,6 +988,8 @@ class Evaluator:
         v = self.eval(node, env, fr)
         if isinstance(v, bool) or v is None:
             return bool(v)
+        if isinstance(v, tuple) and v and v[0] in ("cmp", "and", "or", "not", "opaque") and len(v) in (2, 4):
+            return v                      # a condition tree produced by a modelled predicate (endswith, membership ...)
         if isinstance(v, (str, list, tuple, dict, set, frozenset)):
             return bool(v)
         if isinstance(v, Rat):
@@ -1020,6 +1022,13 @@ class Evaluator:
                 return c if name == "In" else c_not(c)
             if isinstance(a, str) and isinstance(b, AStr):
                 c = ("opaque", "%r in %s" % (a, b.tag))
+                return c if name == "In" else c_not(c)
+            if isinstance(a, str) and len(a) == 1 and isinstance(b, WinV) and b.base.kind == "seq" and a in self.universe \
+                    and isinstance(b.lo, Rat) and b.lo.equals(Rat.const(0)) and isinstance(b.hi, Rat) and b.hi.equals(Rat.const(-1)):
+                # `a in seq[:-1]`: a second occurrence, or one occurrence that is not the last character
+                cnt = Rat.atom("cnt[%s]" % a)
+                last = ("opaque", "seq[-1]==%r" % a)
+                c = ("or", [("cmp", cnt, ">=", Rat.const(2)), ("and", [("cmp", cnt, ">=", Rat.const(1)), c_not(last)])])
                 return c if name == "In" else c_not(c)
             if isinstance(a, str) and len(a) == 1 and isinstance(b, SeqV) and b.kind == "seq":
                 if a in self.universe:
@@ -1554,6 +1563,20 @@ class Evaluator:
                 if isinstance(base, str):
                     return getattr(base, fn.attr)()
                 raise Undecided("method %s on %r" % (fn.attr, base), fr.f.loc(node))
+            if fn.attr in ("endswith", "startswith") and len(args) == 1 and not node.keywords:
+                try:
+                    base_e = self.eval(fn.value, env, fr)
+                except Undecided:
+                    base_e = None
+                suf = self.eval(args[0], env, fr)
+                if isinstance(base_e, SeqV) and base_e.kind == "seq" and isinstance(suf, str) and len(suf) == 1:
+                    if suf not in self.universe:
+                        return False
+                    pos = "-1" if fn.attr == "endswith" else "0"
+                    # non-empty and the end character is the letter (an empty string has no such character: count >= 1 covers it)
+                    return ("and", [("cmp", Rat.atom("cnt[%s]" % suf), ">=", Rat.const(1)), ("opaque", "seq[%s]==%r" % (pos, suf))])
+                if isinstance(base_e, str) and isinstance(suf, str):
+                    return getattr(base_e, fn.attr)(suf)
             if fn.attr == "get" and len(args) in (1, 2) and not node.keywords:
                 try:
                     base_g = self.eval(fn.value, env, fr)
